@@ -245,6 +245,41 @@ def check_groups(chk, lib, limit=None):
                     p = single(lib, f)
                     errs = [entry_is(p.ret, A + H + N * BL - BL, E, BL, "back()"), no_writes(p)]
                     R.done(f, "flat.back", errs)
+            if not flat:
+                f = m("operator()", 1, "::size_bytes_tag")
+                if f:
+                    try:
+                        sm = lib.summary(f, max_paths=60)
+                        errs = []
+                        zero = [p for p in sm.live if not any(e[0] == "loop-begin" for e in p.events)]
+                        if len(zero) != 1 or zero[0].ret is None or lin(zero[0].ret) != H:
+                            errs.append("empty group: size_bytes = %s, expected the dimension size %s" % ([show(p.ret) for p in zero], show(H)))
+                        ent_cls = rint.clean(targs[1])
+                        looped = [p for p in sm.live if any(e[0] == "loop-begin" for e in p.events)]
+                        decided = False
+                        for p in looped[:4]:
+                            its = [e for e in p.events if e[0] == "iter" and e[2] == "size"]
+                            if not its:
+                                errs.append("the entry loop does not accumulate into the returned size")
+                                break
+                            delta = lin(its[0][4]) - lin(its[0][3])
+                            # size of the entry the iterator designates in this iteration
+                            ptrs = sorted({a for a in deep_syms(delta) if a[1].endswith(".ptr")})
+                            try:
+                                esz, _ = lib.tag_call(ent_cls, "size_bytes_tag", "entry")
+                            except AnalysisBroken:
+                                continue        # entry with variable-length members: its size is itself a loop
+                            ren = {("sym", "entry.block_length"): BL, ("sym", "entry.end"): E}
+                            if len(ptrs) == 1:
+                                ren[("sym", "entry.begin")] = Lin.atom(ptrs[0])
+                            want = subst(lin(esz), ren)
+                            if strip_cast(delta) != want:
+                                errs.append("each iteration adds %s, expected size_bytes(entry) = %s" % (show(delta), show(want)))
+                            decided = True
+                            break
+                        R.done(f, "nested.size_bytes", errs, {"entry_delta_decided": decided})
+                    except AnalysisBroken as e:
+                        chk.notes.append("nested.size_bytes %s: %s" % (cls[-50:], str(e)[:80])) if len(chk.notes) < 30 else None
             # ---- cursor ranges
             for f in [x for x in lib.fns(tpl, "cursor_range") if x.get("cls") == cls][:2]:
                 p = single(lib, f)
@@ -268,6 +303,23 @@ def check_groups(chk, lib, limit=None):
                     errs.append(range_is(p.ret, BL, pos, None, E, length_like=N - pos))
                 R.done(f, kind + ".cursor_subrange%d" % np_, errs)
     return R.count
+
+
+def deep_syms(l):
+    out = set()
+    for a in lin(l).atoms():
+        if a[0] == "sym":
+            out.add(a)
+        elif a[0] == "wire":
+            out |= deep_syms(a[1])
+        elif a[0] == "mul":
+            for f in a[1]:
+                out |= deep_syms(Lin.atom(f))
+        elif a[0] in ("cast", "bswap"):
+            for x in a[1:]:
+                if isinstance(x, Lin):
+                    out |= deep_syms(x)
+    return out
 
 
 def only_casts(a, b):
